@@ -12,6 +12,10 @@ CLAIMED = {
    text="Proof: the struct layouts/constants regenerated from the source on every run are proved equal to the SIF v1 tables (reflexivity), the layout-driven codec is proved to round-trip in both directions for every layout, value and byte string, and header/descriptor/table instances follow. The executable model of create/add/delete/set/load is tied to the implementation by evaluating it inside Coq on recorded histories and comparing all backing bytes after every step.",
    note="Trusted: Coq kernel+VM, translator (reflection hook + go/ast), SpecV1 transcription, correspondence harness and Exec.v comparison. The Go code itself is modelled, not verified.",
    ref="5 (C11), 3.1"),
+ "C13": dict(
+   text="Proof: for every handle state and every selector list, GetDescriptors returns exactly the in-use descriptors that satisfy all selectors, in table order (theorem over the model's collect/multi_eval, no invariant needed); the single-object form's not-found/multiple-found outcomes are characterised by the number of matches; empty image; zero ID/group is an error whenever a live object reaches that selector; the unconditional form is refuted by a vm_compute witness (known finding F8). The model's queries are tied to the implementation by evaluating selector tuples of length 0-3 (incl. erroring caller predicates) after every step of recorded histories.",
+   note="Trusted: Coq kernel+VM, correspondence harness and Exec.v. The meaning of each selector is the model's sel_eval (SelectFacts.v states each as an iff).",
+   ref="5 (C13)"),
 }
 
 REASON_PENDING = "check not yet built in this revision (model exists; theorem file and families pending) - see DESIGN.md section 10"
